@@ -262,7 +262,10 @@ static Token *copy_line(Token **rest, Token *tok) {
   for (; !tok->at_bol; tok = tok->next)
     cur = cur->next = copy_token(tok);
 
-  cur->next = new_eof(tok);
+  // The end of the line is where its last token is, not where the next
+  // line (possibly of another file) begins: a diagnostic about a
+  // directive that is cut short belongs to the directive's line.
+  cur->next = new_eof(cur == &head ? tok : cur);
   *rest = tok;
   return head.next;
 }
@@ -415,23 +418,28 @@ static MacroParam *read_macro_params(Token **rest, Token *tok, char **va_args_na
   return head.next;
 }
 
+// `tok` is the token after "define". The directive ends with its line:
+// the name, the parameter list and the replacement list are taken from
+// a copy of that line, so that a definition which is cut short is
+// diagnosed on its own line instead of running on into the next one.
 static void read_macro_definition(Token **rest, Token *tok) {
-  if (tok->kind != TK_IDENT)
+  if (tok->at_bol || tok->kind != TK_IDENT)
     error_tok(tok, "macro name must be an identifier");
+  tok = copy_line(rest, tok);
   char *name = strndup(tok->loc, tok->len);
   tok = tok->next;
 
-  if (!tok->has_space && !tok->at_bol && equal(tok, "(")) {
+  if (!tok->has_space && equal(tok, "(")) {
     // Function-like macro
     char *va_args_name = NULL;
     MacroParam *params = read_macro_params(&tok, tok->next, &va_args_name);
 
-    Macro *m = add_macro(name, false, copy_line(rest, tok));
+    Macro *m = add_macro(name, false, tok);
     m->params = params;
     m->va_args_name = va_args_name;
   } else {
     // Object-like macro
-    add_macro(name, true, copy_line(rest, tok));
+    add_macro(name, true, tok);
   }
 }
 
